@@ -78,6 +78,15 @@ func driveMux(c *hx.Ctx) error {
 				s.Progs[side] = append(s.Progs[side], prog)
 			}
 		}
+		if i%4 == 1 || i%4 == 2 {
+			// an expired deadline on one of the connections (both transports; the socket honours deadlines on
+			// the trunk): the transfer on all of them must be what it is without it
+			for side := 0; side < 2; side++ {
+				if (i/4+side)%2 == 0 || i%4 == 1 {
+					s.Deadlines[side] = append(s.Deadlines[side], dlop{ID: s.IDs[r.Intn(k)], Kind: (i / 4) % 3})
+				}
+			}
+		}
 		scns = append(scns, scenario{X: s})
 		streams = append(streams, "mux_bytes")
 	}
@@ -305,6 +314,7 @@ func driveMux(c *hx.Ctx) error {
 	}
 	skippedCheck(c)
 	c.Stats.Rule = "mux_bytes: 1-5 connection ids (incl. 1, 2 and the highest uint32), 1-4 concurrent writer goroutines per side each issuing 1-8 Writes of 0..600 bytes to random ids, both directions at once, queue lengths 1,2,3,8,256 with readers that keep up (credit flow control), net.Pipe and unix socketpair alternating; the recorded trunk bytes, the serialisation found by parsing them and every Read result are compared byte for byte inside Coq. " +
+		"In half of the mux_bytes scenarios SetDeadline / SetReadDeadline / SetWriteDeadline with an expired deadline is called on one of the connections of one or both ends just before the writers start: a no-op for the Mux (C10_deadlines_change_nothing), the same comparison applies. " +
 		"mux_sizes: the same with payloads at the chunk boundaries 0,1,max-1,max,max+1,2max-1,2max,2max+1,3max-1,3max and random sizes up to 3*max next to medium traffic; compared in Coq at the level of frame headers (size-level model), content on SHA-256 in the driver. " +
 		"mux_readbuf: one connection, 1-7 frames of 0..600 bytes queued, then one Read per frame with a buffer whose length and capacity are chosen relative to the frame (len < frame <= cap, len = frame, len > frame, len <= cap < frame, len = frame-1 with cap = frame, random); the returned count, error class and buf[:min(n,len)] are compared in Coq with Model.Mux.read_buf_step and judged by holds_readbuf (n <= len(buf) and the whole frame, or ENOMEM and the frame does not fit); non-trivial when some buffer is shorter than its frame. " +
 		"mux_stray: unix socketpair, both readers blocked (WithBlockedRead) until every writer has finished, so that the frames lie back to back in the socket buffer; the writers also write (40% of the Writes, one of the first frames always) to ids that nobody can read at the other end — one never opened there, one opened and closed with conn.Close before the start — small payloads (byte level) and multi-frame payloads (unblocked while the large payload is on its way); the open connections must get exactly their bytes (corr_bytes/holds_bytes on trunk and Reads: the model drops the stray frames and nothing else). " +
@@ -366,6 +376,10 @@ func emitXfer(c *hx.Ctx, stream string, idx int, s *xferScn, r scnResult, maxp i
 		c.ImplFail(stream, "Read/Write error, lost data or time-out although the receiver kept up: "+o.Fails[0], raw)
 	}
 	c.Count("transport."+s.Transport, 1)
+	if n := len(s.Deadlines[0]) + len(s.Deadlines[1]); n > 0 {
+		c.Count("scenarios_with_an_expired_deadline_on_a_connection", 1)
+		c.Count("deadline_calls."+s.Transport, n)
+	}
 	if s.LateReaders {
 		c.Count("late_reader_scenarios", 1)
 		if s.QLen > 256 {
